@@ -711,7 +711,17 @@ class PureScheduler:                                    # pylint: disable=r0902
             # wait for the forever tasks for a clean exit
             # don't bother to set a timeout, as this is expected
             # to be immediate since all tasks are canceled
-            await asyncio.wait(pending)
+            # if we get cancelled ourselves in the meanwhile, keep on
+            # waiting so as to not leave these tasks behind
+            cancelled = False
+            while True:
+                try:
+                    await asyncio.wait(pending)
+                    break
+                except asyncio.CancelledError:
+                    cancelled = True
+            if cancelled:
+                raise asyncio.CancelledError()
 
     async def _tidy_tasks_exception(self, tasks):
         """
@@ -882,7 +892,12 @@ class PureScheduler:                                    # pylint: disable=r0902
         await self._feedback(None, "scheduler is shutting down...")
 
         # the done part is of no use here
-        _, pending = await asyncio.wait(tasks, timeout=timeout)
+        try:
+            _, pending = await asyncio.wait(tasks, timeout=timeout)
+        except asyncio.CancelledError:
+            # same as above, do not leave the shutdown tasks behind
+            await self._tidy_tasks(tasks)
+            raise
         # everything went fine
         # NOTE however: here we say that sub-schedulers that expired in timeout
         # should not impact the overall result; this is an arguable choice
@@ -943,6 +958,22 @@ class PureScheduler:                                    # pylint: disable=r0902
 
         No automatic shutdown is performed, user needs to explicitly call
         :meth:`co_shutdown()` or :meth:`shutdown()`.
+        """
+        try:
+            return await self._co_run()
+        except asyncio.CancelledError:
+            # we are being cancelled from the outside, typically because
+            # we are nested in a scheduler that is aborting: our own jobs
+            # must not be left behind, and they need to be shut down
+            await self._tidy_tasks(
+                {job._task for job in self.jobs
+                 if job._task is not None and not job._task.done()})
+            await self.co_shutdown()
+            raise
+
+    async def _co_run(self):                      # pylint: disable=R0912,R0915
+        """
+        The actual orchestration code for :meth:`co_run()`
         """
         # create a Window no matter what; it will know what to do
         # also if jobs_window is None
